@@ -768,6 +768,61 @@ def run_sequence(case):
     return out
 
 
+# ------------------------------------------------------------------ representation axis for the participation coefficients (audit 3)
+
+PDTYPES = ('bool', 'uint8', 'int32', 'int64', 'float32', 'float64-F', 'int64-big')
+
+
+def run_dtype(case):
+    """case: n, W (integer-valued Fractions, signed), labels, seed.  participation_coef / participation_coef_sign on the same VALUES stored
+    as bool / uint8 / int32 / int64 / float32 / Fortran-ordered float64 / int64 with weights ~4e9, judged by the exact definition
+    P_i = 1 - sum_m (k_im / k_i)^2 on the stored values, and a column-vector `ci` (the docstring's "Nx1") as an unjudged probe."""
+    bct = import_bct()
+    n = case['n']; lab = case['labels']; la = np.array(lab, dtype=np.int64)
+    out = {'viol': [], 'lean': [], 'evals': 0, 'keys': [], 'dist': {}, 'sample': None}
+    Wi = [[int(x) for x in r] for r in case['W']]
+    for dt in PDTYPES:
+        if dt == 'bool':
+            V = [[1 if x else 0 for x in r] for r in Wi]; A = np.array(V, dtype=bool)
+        elif dt == 'uint8':
+            V = [[abs(x) for x in r] for r in Wi]; A = np.array(V, dtype=np.uint8)
+        elif dt == 'int64-big':
+            V = [[x * 1000000000 for x in r] for r in Wi]; A = np.array(V, dtype=np.int64)
+        elif dt == 'float64-F':
+            V = Wi; A = np.asfortranarray(np.array(V, dtype=float))
+        else:
+            V = Wi; A = np.array(V, dtype=dt)
+        F = [[Fr(x) for x in r] for r in V]
+        # does an int64 square of a module strength overflow?  (that is the mechanism of the recorded defect)
+        def overflows(M):
+            return any(sum(M[u][v] for v in range(n) if lab[v] == l) ** 2 >= 2 ** 63 or sum(M[u]) ** 2 >= 2 ** 63 for u in range(n) for l in set(lab))
+        for fname, f, ex in (('participation_coef', lambda: bct.participation_coef(A, la), lambda: [o_pcoef(F, lab)]),
+                             ('participation_coef_sign', lambda: bct.participation_coef_sign(A, la), lambda: [o_pcoef(pos(F), lab), o_pcoef(neg(F), lab)])):
+            A0 = A.copy()
+            st, o = call(f, t=5, retry=10); out['evals'] += 1; tally(out, fname, st)
+            out['dist']['dtype_axis:' + dt] = out['dist'].get('dtype_axis:' + dt, 0) + 1
+            got = canon(st, o, fname)
+            want = ('val', [[float(x) for x in p] for p in ex()])
+            det = {'n': n, 'W_values': [[int(x) for x in r] for r in V], 'dtype': dt, 'labels': lab, 'result': got, 'expected': want}
+            ovf = dt.startswith('int64') and (overflows(pos(F)) or overflows(neg(F)) or overflows(F))
+            cond = {'dtype': dt, 'square_overflows_int64': ovf}
+            if got[0] == 'timeout':
+                continue
+            if not np.array_equal(A, A0):
+                out['viol'].append((fname, 'input-modified', det, cond))
+            if got[0] == 'exc':
+                out['viol'].append((fname, 'raises', det, dict(cond, exception=got[1])))
+            elif not same(got, want, 1e-9):
+                out['viol'].append((fname, 'definition', det, cond))
+            else:
+                out['keys'].append(digest(['dtype', fname, dt, case['W'], lab]))
+    # column-vector labels: NumPy >= 2 gives return_inverse the input's shape, so every consumer but partition_distance raises
+    # loudly (ValueError / IndexError / TypeError) on an (N,1) `ci`; counted, not judged (documented in notes/C14.md)
+    st, o = call(bct.participation_coef_sign, fmat([[Fr(x) for x in r] for r in Wi]), la.reshape(-1, 1), t=5, retry=10)
+    out['dist']['column_vector_labels:' + ('ok' if st == 'ok' else exc_name(o) if st == 'exc' else st)] = 1
+    return out
+
+
 # ------------------------------------------------------------------ main
 
 def compare_model(ck, items, outs):
@@ -847,6 +902,7 @@ aux_W = [parse_W_from_line]
 VKW = {v[0]: v[3] for v in variants()}
 
 PROBE_NOTE = 'object-reuse probes (common.reuse_probe) and f-g-f sequences on shared argument objects'
+ZERO_NODE = []
 ROUTINES = ['participation_coef', 'participation_coef_sign', 'module_degree_zscore', 'diversity_coef_sign', 'gateway_coef_sign',
             'modularity_und', 'modularity_dir', 'modularity_und_sign', 'partition_distance', 'ci2ls', 'ls2ci', 'agreement']
 
@@ -976,11 +1032,18 @@ def main():
             for sd in range(40):
                 reuse.append({'n': n, 'mats': mats, 'labels': a[-2] if d['target'].startswith('partition_distance') else a[-1],
                               'labels2': a[-1], 'target': d['target'], 'mutation': d['mutation'], 'seed': sd})
+    dts = []
+    if not ck.replay:
+        for q in range(10 if quick else 80):
+            n = int(rs.randint(3, 8))
+            M = rs.randint(-4, 5, size=(n, n)); M = np.triu(M, 1); M = M + M.T
+            dts.append({'n': n, 'W': M.tolist(), 'labels': [int(x) for x in rs.randint(1, 4, size=n)], 'seed': q})
+    ck.count('dtype_axis_cases', len(dts))
     ck.count('reuse_probes', len(reuse)); ck.count('sequence_cases', len(seqs))
     ck.count('consumer_cases', len(cons)); ck.count('partition_distance_pairs', len(pds)); ck.count('list_cases', len(lists)); ck.count('agreement_cases', len(agrs))
     results = []
     # workers interleave routines, sizes and options: every case list is shuffled (hidden state carried between calls must show)
-    for fn, cs in ((run_consumers, cons), (run_pd, pds), (run_lists, lists), (run_agreement, agrs), (run_reuse, reuse), (run_sequence, seqs)):
+    for fn, cs in ((run_consumers, cons), (run_pd, pds), (run_lists, lists), (run_agreement, agrs), (run_reuse, reuse), (run_sequence, seqs), (run_dtype, dts)):
         cs = [cs[i] for i in rs.permutation(len(cs))]
         results += pmap(fn, cs)
     items = []
@@ -1008,6 +1071,24 @@ def main():
             ck.breaks.append({'kind': 'liveness', 'function': fn, 'what': 'too many watchdog timeouts', 'ok': okc, 'exceptions': exc, 'timeouts': to})
         if fn == 'gateway_coef_sign' and exc > okc:
             ck.breaks.append({'kind': 'liveness', 'function': fn, 'what': 'raises on most calls', 'ok': okc, 'exceptions': exc, 'timeouts': to})
+    # ---- zero nodes: the routines that take np.max of the canonical labels raise ValueError, the model driver mirrors it
+    # (theorems about VIn/MIn carry 0 < n); modularity_und/_dir return q = 0.0
+    if not ck.replay:
+        bct0 = import_bct()
+        E0 = np.zeros((0, 0)); c0 = np.array([], dtype=np.int64)
+        for op, fn0, line in (('participation_coef', lambda: bct0.participation_coef(E0, c0), 'pcoef n=0 W=- c=- deg=undirected'),
+                              ('participation_coef_sign', lambda: bct0.participation_coef_sign(E0, c0), 'pcoef_sign n=0 W=- c=-'),
+                              ('module_degree_zscore', lambda: bct0.module_degree_zscore(E0, c0), 'zscore n=0 W=- c=- flag=0'),
+                              ('diversity_coef_sign', lambda: bct0.diversity_coef_sign(E0, c0), 'diversity n=0 W=- c=-'),
+                              ('gateway_coef_sign', lambda: bct0.gateway_coef_sign(E0, c0), 'gateway n=0 W=- c=-'),
+                              ('modularity_und_sign', lambda: bct0.modularity_und_sign(E0, c0), 'q_sign n=0 W=- c=- qtype=sta'),
+                              ('partition_distance', lambda: bct0.partition_distance(c0, c0), 'pdist n=0 cx=- cy=-'),
+                              ('modularity_und', lambda: bct0.modularity_und(E0, 1, c0)[1], 'q_und n=0 W=- c=- gamma=1'),
+                              ('modularity_dir', lambda: bct0.modularity_dir(E0, 1, c0)[1], 'q_dir n=0 W=- c=- gamma=1')):
+            st, o = call(fn0, t=5, retry=10)
+            exp = 'error=' + exc_name(o) if st == 'exc' else ('q=%s' % rat_str(Fr(float(o))) if st == 'ok' and np.ndim(o) == 0 else 'value')
+            ZERO_NODE.append((line, op, exp))
+            ck.count('zero_node_cases')
     # ---- D16 witness replayed on the real code on every run (Props/C14.lean proves the model's non-invariance on the same input)
     bct = import_bct()
     Ww = np.array([[0, 1, 2, 0], [1, 0, 0, 3], [2, 0, 0, 1], [0, 3, 1, 0.]])
@@ -1028,14 +1109,20 @@ def main():
             lines = [it[0] for it in items]
             # the interpreted driver is single-threaded: run it on 6 slices in parallel (order preserved)
             from concurrent.futures import ThreadPoolExecutor
-            allin = lines + MALFORMED
+            allin = lines + MALFORMED + [z[0] for z in ZERO_NODE]
             nch = 6 if len(allin) > 600 else 1
             sz = (len(allin) + nch - 1) // nch
             with ThreadPoolExecutor(nch) as ex:
                 parts = list(ex.map(lambda ch: run_driver('Partition', ch, timeout=1500), [allin[i:i + sz] for i in range(0, len(allin), sz)]))
             outs = [o for pt in parts for o in pt]
             nv, nd = compare_model(ck, items, outs[:len(lines)])
-            for ln, o in zip(MALFORMED, outs[len(lines):]):
+            for (ln, op, exp), o in zip(ZERO_NODE, outs[len(lines) + len(MALFORMED):]):
+                if o != exp:
+                    nd += 1
+                    ck.corr_break('Partition model vs bct.%s on zero nodes' % op, {'line': ln, 'model': o, 'impl': exp})
+                else:
+                    nv += 1
+            for ln, o in zip(MALFORMED, outs[len(lines):len(lines) + len(MALFORMED)]):
                 ck.count('malformed_lines')
                 if o != 'error=protocol':
                     nd += 1
